@@ -349,6 +349,79 @@ def work(ctx, tier):
                         viol("undocumented-code-not-ignored", f"{attr}={v} is not a documented code; strict must answer UNKNOWN; got {rs and rs.name}", case)
 
 
+    classifier_threads(ctx, viol, tier, rng)
+
+
+def classifier_threads(ctx, viol, tier, rng):
+    """The classifiers are functions of their argument: two threads classifying different errors at once (pre-emption before every
+    source line of the library, controlled scheduler) each get the answer they get alone, and so does everyone asking afterwards."""
+    from .. import sched
+
+    def sql_exc(code, form, j):
+        typ = type(["Db", "Odbc", "Driver"][j % 3] + "Error", (Exception,), {})
+        if form == 0:
+            e = typ("failed")
+            e.sqlstate = code
+            return e
+        if form == 1:
+            return typ(code, f"[{code}] [microsoft][odbc driver] something failed ({j})")
+        return typ(f"query failed with state {code} after {j} ms")
+
+    def named(nm_, attr=None, v=None):
+        e = type(nm_, (Exception,), {})("x")
+        if attr:
+            setattr(e, attr, v)
+        return e
+
+    codes = sorted(SQL)
+    pairs = []
+    for j in range(6 if tier == "quick" else 60):
+        a, b = rng.sample(codes, 2)
+        f = rng.choice([1, 1, 2])
+        pairs.append((sqlstate_classifier, sql_exc(a, f, j), sql_exc(b, f, j + 1)))
+        pairs.append((pyodbc_classifier, sql_exc(a, 1, j), sql_exc(b, 1, j + 1)))
+    for j in range(4 if tier == "quick" else 40):
+        na, nb = rng.sample(["AuthError", "TimeoutThing", "ForbiddenError", "PlainError", "RateLimitExceeded", "ConflictError"], 2)
+        fn = rng.choice([default_classifier, strict_classifier, http_classifier])
+        pairs.append((fn, named(na, rng.choice([None, "status"]), rng.choice(list(TABLE))), named(nb, rng.choice([None, "code"]), rng.choice(list(TABLE)))))
+    limit = 40 if tier == "quick" else 400
+    for pi, (fn, ea, eb) in enumerate(pairs):
+        if pi % ctx.nshards != ctx.shard:
+            continue
+        try:
+            want = (fn(ea), fn(eb))
+        except BaseException as x:  # noqa: BLE001
+            viol("classifier-raised:" + type(x).__name__, f"{fn.__name__} raised {x!r}", {"threads": fn.__name__})
+            continue
+        case = {"classifier": fn.__name__, "a": f"{type(ea).__name__}{ea.args!r}"[:90], "b": f"{type(eb).__name__}{eb.args!r}"[:90]}
+        progs = [[lambda o: fn(ea)], [lambda o: fn(eb)]]
+        prefix, n = [], 0
+        while True:
+            r = sched.run_schedule(lambda: object(), progs, prefix=prefix)
+            s_ = r["sched"]
+            n += 1
+            key = [x[1] for x in s_.trace]
+            ctx.cnt["classifier_thread_schedules"] += 1
+            ctx.cnt["classifier_thread_line_events"] += s_.line_events
+            if not r["completed"]:
+                ctx.inconclusive_because(f"scheduler watchdog fired for {case}")
+                break
+            got = (r["results"][0][0] if r["results"][0] else None, r["results"][1][0] if r["results"][1] else None)
+            later = None
+            if not r["errors"]:
+                later = (fn(ea), fn(eb))
+            if r["errors"] or got != want or later != want:
+                viol("classifier-answer-depends-on-another-thread", f"{fn.__name__}: alone -> {[w.name for w in want]}; two threads at once -> {[g and g.name for g in got]}, asked again afterwards -> {later and [g.name for g in later]}; "
+                     f"errors {r['errors']}; {case}; schedule {key}", dict(case, schedule=key))
+                break
+            nxt = sched.next_prefix(s_.trace, 2)
+            if nxt is None or n >= limit:
+                break
+            prefix = nxt
+        ctx.cnt["classifier_thread_pairs"] += 1
+    sched.uninstall_monitor()
+
+
 def conclude(ctx):
     floors = {
         "layer:marker": (ctx.cnt["layer:marker"], 500),
@@ -362,6 +435,8 @@ def conclude(ctx):
         "sql:free text": (ctx.cnt["sql:free text"], 50),
         "systematic_table_cases": (ctx.cnt["systematic_table_cases"], 500),
         "falsy_status_defers_to_code": (ctx.cnt["falsy_status_defers_to_code"], 200),
+        "classifier_thread_schedules": (ctx.cnt["classifier_thread_schedules"], 200),
+        "classifier_thread_line_events": (ctx.cnt["classifier_thread_line_events"], 1000),
     }
     absent = [k for k in OPTIONAL if not ctx.cnt.get(f"optional_library_present:{k}")]
     if absent:
@@ -371,7 +446,8 @@ def conclude(ctx):
             "generated exception objects: marker types and subclasses, TimeoutError family, builtins, BaseException subclasses, dynamically created classes whose names combine "
             "{auth, unauthoriz, credential, forbid, permission, timeout, connection, neutral} fragments in mixed case; status/status_code/code/sqlstate/args hold ints (table, neighbours, huge, negative), bools, "
             "floats incl. NaN/inf, str, bytes, containers, objects; every one of the 10 classifiers is called on every object; systematic pass over every documented integer x attribute x type name and every "
-            "documented SQLSTATE x {attribute, bracket, free text}; one evaluation = one classifier call; distinct = distinct (type, attributes, args) cases"
+            "documented SQLSTATE x {attribute, bracket, free text}; pairs of errors classified by two threads at once under the controlled scheduler (pre-emption before every source line) and asked again afterwards; "
+            "one evaluation = one classifier call; distinct = distinct (type, attributes, args) cases"
         ),
         evaluations=ctx.cnt["classifications"],
         nontrivial=len(ctx.sets["nontrivial"]),
